@@ -219,6 +219,16 @@ pub fn schnorr_key_sig_for(k: &KeyInfo, spend: &Spend, merkle_root: Option<[u8; 
     sign_schnorr_kp(&tweaked, d, hashtype)
 }
 
+#[derive(Clone, Copy, PartialEq, Eq, Debug)]
+pub enum SignCap {
+    All,
+    /// taproot: script-path signatures only
+    NoKeySpend,
+    /// taproot: only for this leaf (and no key spend)
+    OnlyLeaf(TapLeafHash),
+    EcdsaOnly,
+}
+
 /// The satisfier the library sees: answers only from the world.
 pub struct WorldSat<'a> {
     pub world: &'a World,
@@ -228,6 +238,8 @@ pub struct WorldSat<'a> {
     pub schnorr_all: bool,
     /// claim every time lock is met (used only to fabricate adversarial interpreter inputs)
     pub lie_locks: bool,
+    /// signing capability restriction (mirrors plan::CanSign)
+    pub cap: SignCap,
 }
 
 impl<'a> WorldSat<'a> {
@@ -268,7 +280,7 @@ impl<'a, Pk: MiniscriptKey + ToPublicKey> Satisfier<Pk> for WorldSat<'a> {
     fn lookup_tap_key_spend_sig(&self, pk: &Pk) -> Option<bitcoin::taproot::Signature> {
         let x = pk.to_x_only_pubkey().serialize();
         let k = key_by_bytes(&x)?;
-        if !self.have(k) {
+        if !self.have(k) || self.cap != SignCap::All {
             return None;
         }
         match self.sign {
@@ -286,6 +298,11 @@ impl<'a, Pk: MiniscriptKey + ToPublicKey> Satisfier<Pk> for WorldSat<'a> {
         let k = key_by_bytes(&x)?;
         if !self.have(k) {
             return None;
+        }
+        match self.cap {
+            SignCap::EcdsaOnly => return None,
+            SignCap::OnlyLeaf(l) if l != *leaf => return None,
+            _ => {}
         }
         match self.sign {
             SignCtx::Taproot { .. } => {
